@@ -9,11 +9,12 @@
 // member count of every concurrent quota is read (GetQuotaGroupsCounters).
 //
 // op lines                                           answers
-//   cfg t0=<ns> gc=<sec> early=<0|1> order=<i,j,..> q0=c,<max>,<expSec>,<parent|-> q1=f ...   ok | err:init
-//   req r=<id> m=<G|P>                               v=<a|r|e> c=<n0,n1,..>    (a admitted, r refused 429, e answered early 200)
-//   resp r=<id>                                      ok c=<..>
-//   err r=<id>                                       ok c=<..>                  (Stream.OnError)
-//   adv d=<ns>                                       ok c=<..>
+//
+//	cfg t0=<ns> gc=<sec> early=<0|1> order=<i,j,..> q0=c,<max>,<expSec>,<parent|-> q1=f ...   ok | err:init
+//	req r=<id> m=<G|P>                               v=<a|r|e> c=<n0,n1,..>    (a admitted, r refused 429, e answered early 200)
+//	resp r=<id>                                      ok c=<..>
+//	err r=<id>                                       ok c=<..>                  (Stream.OnError)
+//	adv d=<ns>                                       ok c=<..>
 package main
 
 import (
